@@ -289,20 +289,24 @@ func (c *Ctx) RunCases(cases []Case, workers int, fn func(cs Case)) {
 	}
 	var next int64 = -1
 	var wg sync.WaitGroup
+	hm := c.startHangMon(workers)
 	for w := 0; w < workers; w++ {
 		wg.Add(1)
-		go func() {
+		go func(w int) {
 			defer wg.Done()
 			for {
 				i := int(atomic.AddInt64(&next, 1))
 				if i >= len(cases) {
 					return
 				}
+				hm.begin(w, cases[i])
 				c.safe(cases[i], fn)
+				hm.end(w)
 			}
-		}()
+		}(w)
 	}
 	wg.Wait()
+	close(hm.stop)
 }
 
 func (c *Ctx) safe(cs Case, fn func(cs Case)) {
